@@ -26,7 +26,7 @@ set_option hygiene false in
 macro_rules
   | `(tactic| st_top) => `(tactic| (
       rcases st with _ | ⟨a, st⟩
-      · simp [Spec.step] at hev
+      · simp [Spec.step, Spec.stepMore] at hev
       rw [stackWF_cons] at hw
       obtain ⟨hwa, hw⟩ := hw))
 
@@ -110,10 +110,10 @@ set_option hygiene false in
 macro_rules
   | `(tactic| sound_val1) => `(tactic| (
       st_top
-      cases a <;> first | (simp [Spec.step] at hev; done) | skip
-      all_goals (try (rename_i t v; cases t <;> first | (simp [Spec.step] at hev; done) | skip))
-      all_goals (simp [Spec.step] at hev; subst hev)
-      all_goals (simp_all [Typing.step, typeOf, stackWF_cons, wf_nat, wf_list, wf_map, allTy_nil])))
+      cases a <;> first | (simp [Spec.step, Spec.stepMore] at hev; done) | skip
+      all_goals (try (rename_i t v; cases t <;> first | (simp [Spec.step, Spec.stepMore] at hev; done) | skip))
+      all_goals (simp [Spec.step, Spec.stepMore] at hev; subst hev)
+      all_goals (simp_all [Typing.step, Typing.stepMore, typeOf, stackWF_cons, wf_nat, wf_list, wf_map, allTy_nil])))
 
 section
 variable (env : Env) (st st' : List Val) (hw : StackWF st)
@@ -171,6 +171,13 @@ theorem sound_LEVEL (hev : Spec.step env .LEVEL st = .ok st') :
     StackWF st' ∧ Typing.step .LEVEL (st.map typeOf) = some (.ok (st'.map typeOf)) :=
   sound_numEnv env st st' hw .LEVEL .nat env.level (fun _ => rfl) (fun _ => rfl) hev
 
+theorem sound_TOTAL_VOTING_POWER (hev : Spec.step env .TOTAL_VOTING_POWER st = .ok st') :
+    StackWF st' ∧ Typing.step .TOTAL_VOTING_POWER (st.map typeOf) = some (.ok (st'.map typeOf)) :=
+  sound_numEnv env st st' hw .TOTAL_VOTING_POWER .nat env.totalVotingPower (fun _ => rfl) (fun _ => rfl) hev
+theorem sound_MIN_BLOCK_TIME (hev : Spec.step env .MIN_BLOCK_TIME st = .ok st') :
+    StackWF st' ∧ Typing.step .MIN_BLOCK_TIME (st.map typeOf) = some (.ok (st'.map typeOf)) :=
+  sound_numEnv env st st' hw .MIN_BLOCK_TIME .nat env.minBlockTime (fun _ => rfl) (fun _ => rfl) hev
+
 theorem sound_SOME (hev : Spec.step env .SOME st = .ok st') :
     StackWF st' ∧ Typing.step .SOME (st.map typeOf) = some (.ok (st'.map typeOf)) := by
   st_top; simp [Spec.step] at hev; subst hev; simp [Typing.step, typeOf, stackWF_cons, hwa, hw]
@@ -214,6 +221,27 @@ theorem sound_LE (hev : Spec.step env .LE st = .ok st') :
     StackWF st' ∧ Typing.step .LE (st.map typeOf) = some (.ok (st'.map typeOf)) := by sound_val1
 theorem sound_GE (hev : Spec.step env .GE st = .ok st') :
     StackWF st' ∧ Typing.step .GE (st.map typeOf) = some (.ok (st'.map typeOf)) := by sound_val1
+theorem sound_BLAKE2B (hev : Spec.step env .BLAKE2B st = .ok st') :
+    StackWF st' ∧ Typing.step .BLAKE2B (st.map typeOf) = some (.ok (st'.map typeOf)) := by sound_val1
+theorem sound_SHA256 (hev : Spec.step env .SHA256 st = .ok st') :
+    StackWF st' ∧ Typing.step .SHA256 (st.map typeOf) = some (.ok (st'.map typeOf)) := by sound_val1
+theorem sound_SHA512 (hev : Spec.step env .SHA512 st = .ok st') :
+    StackWF st' ∧ Typing.step .SHA512 (st.map typeOf) = some (.ok (st'.map typeOf)) := by sound_val1
+theorem sound_KECCAK (hev : Spec.step env .KECCAK st = .ok st') :
+    StackWF st' ∧ Typing.step .KECCAK (st.map typeOf) = some (.ok (st'.map typeOf)) := by sound_val1
+theorem sound_SHA3 (hev : Spec.step env .SHA3 st = .ok st') :
+    StackWF st' ∧ Typing.step .SHA3 (st.map typeOf) = some (.ok (st'.map typeOf)) := by sound_val1
+theorem sound_RENAME (hev : Spec.step env .RENAME st = .ok st') :
+    StackWF st' ∧ Typing.step .RENAME (st.map typeOf) = some (.ok (st'.map typeOf)) := by
+  st_top; simp [Spec.step, Spec.stepMore] at hev; subst hev; simp [Typing.step, Typing.stepMore, stackWF_cons, hwa, hw]
+theorem sound_CAST (t : Ty) (hev : Spec.step env (.CAST t) st = .ok st') :
+    StackWF st' ∧ Typing.step (.CAST t) (st.map typeOf) = some (.ok (st'.map typeOf)) := by
+  st_top
+  simp only [Spec.step, Spec.stepMore] at hev
+  split at hev
+  · rename_i ht
+    simp at hev; subst hev; simp [Typing.step, Typing.stepMore, stackWF_cons, hwa, hw, ht]
+  · simp at hev
 theorem sound_NOT (hev : Spec.step env .NOT st = .ok st') :
     StackWF st' ∧ Typing.step .NOT (st.map typeOf) = some (.ok (st'.map typeOf)) := by sound_val1
 
@@ -1101,6 +1129,15 @@ theorem step_sound (env : Env) (i : Instr) (st st' : List Val) (hw : StackWF st)
   case LEVEL => exact sound_LEVEL env st st' hw hev
   case CHAIN_ID => exact sound_CHAIN_ID env st st' hw hev
   case SELF_ADDRESS => exact sound_SELF_ADDRESS env st st' hw hev
+  case TOTAL_VOTING_POWER => exact sound_TOTAL_VOTING_POWER env st st' hw hev
+  case MIN_BLOCK_TIME => exact sound_MIN_BLOCK_TIME env st st' hw hev
+  case BLAKE2B => exact sound_BLAKE2B env st st' hw hev
+  case SHA256 => exact sound_SHA256 env st st' hw hev
+  case SHA512 => exact sound_SHA512 env st st' hw hev
+  case KECCAK => exact sound_KECCAK env st st' hw hev
+  case SHA3 => exact sound_SHA3 env st st' hw hev
+  case RENAME => exact sound_RENAME env st st' hw hev
+  case CAST t => exact sound_CAST env st st' hw t hev
   case PAIRN n => exact sound_PAIRN env st st' hw n hev
   case UNPAIRN n => exact sound_UNPAIRN env st st' hw n hev
   case GETN n => exact sound_GETN env st st' hw n hev
